@@ -247,6 +247,15 @@ def run(ck, build):
     ck.config("H", "N0")
     n = check_free(ck, H, "H/N0")
     shape = check_clean(ck, H, "H/N0")
+    # the callers' view of tinyjambu_clean is the definition's: a size parameter of another width than the prototype the callers were compiled
+    # against is read from a register half nobody wrote ("exactly n bytes" holds only if n arrives as it was sent)
+    ncl = 0
+    for g_ in H.fns.values():
+        for I_ in g_.insts:
+            if I_.op == "call" and I_.callee == "tinyjambu_clean":
+                ncl += 1
+                ck.ob(not I_.get("proto_mismatch"), "R-C20-CLEAN", g_.name, "clean-call-prototype#%d[H/N0]" % I_.id, "tinyjambu_clean is called with the function type it is defined with",
+                      "tinyjambu_clean is called as %s: the size the callee reads is not the size the caller passed" % I_.get("proto_mismatch"), where=relpath(I_.where))
     H3 = Module(build.facts("H", "R3"))
     ck.config("H", "R3")
     n += check_free(ck, H3, "H/R3", rule="R-C20-SURVIVE")
